@@ -43,7 +43,7 @@ META = {
                     'drops only the offending connection (trusted)',
                     'for-loops over finite sequences/generators terminate '
                     'when the generator\'s own loops are proved'],
-    'decided': ['D1 loop progress', 'D2 recursion measure',
+    'decided': ['D1 loop progress (every decoder size bounded below)', 'D2 recursion measure',
                 'D3 bounded reads', 'D4 unknown message type rejected',
                 'D5 the body signature is bounded (<= 255) before it is '
                 'split and decoded - the premise under which the quadratic '
